@@ -75,6 +75,9 @@ pub struct ScriptSpec {
     pub outputs: Vec<OutSpec>,
     /// Initial register / memory pokes (C29): (register, value)
     pub reg_pokes: Vec<(u8, u64)>,
+    /// The second coin input belongs to another owner, so the transaction has no unique owner.
+    #[serde(default)]
+    pub two_owners: bool,
 }
 
 #[derive(Debug, Clone, Serialize, Deserialize, PartialEq)]
@@ -321,7 +324,7 @@ impl World {
             txid[31] = 1;
             inputs.push(Input::coin_signed(
                 UtxoId::new(Bytes32::new(txid), j as u16),
-                owner,
+                if spec.two_owners && j == 1 { Address::new([0x0B; 32]) } else { owner },
                 *amount,
                 asset(*a % NA as u8),
                 TxPointer::default(),
